@@ -13,21 +13,22 @@ RULE = ("case = (relation between servers and shares, insertion order of the sha
         "servers and <= 4 shares (74 963 relations)")
 META = {
     "title": "Happiness value equals a maximum server/share matching",
-    "level_text": ("Coq: executable model of servers_of_happiness (re-indexing, flow network as adjacency lists, BFS with "
-                   "colours/predecessors, augmenting path, residual network, augmentation loop with fuel servers+1). "
-                   "Proved for ALL graphs, unbounded: a valid matching M together with a vertex cover of size |M| is a "
-                   "maximum matching (Koenig, easy direction), the boolean validator of such certificates is sound, and "
-                   "maximum-matching size is invariant under any re-presentation of the relation.  The model reads M "
-                   "(unit flows) and the cover (servers not coloured / shares coloured by the last BFS) off the algorithm's "
-                   "final state; for every input on which the validator accepts, the returned number is the size of a "
-                   "maximum matching and independent of the presentation order."),
-    "level_note": ("PARTIAL (certificate route of DESIGN A.3): theorems soh_is_matching_partial, soh_is_maximum_partial and "
-                   "soh_order_independent_partial carry the hypothesis `soh_certified svm = true` (the validator accepts the "
-                   "certificate the algorithm's final flow and BFS colouring yield).  That the validator ALWAYS accepts "
-                   "(augmentation preserves the flow invariant, BFS closure) is not proved in Coq; it is evaluated by Coq "
-                   "on every correspondence case: exhaustively for all 74 963 relations <= 4x4 (thorough) and on every "
-                   "seeded random relation <= 30x30.  certificate_sound / max_matching_size_unique are unconditional."),
-    "technique": "Coq proof (certificate checker, all graphs) + executable model of the algorithm run against the implementation + independent Kuhn oracle",
+    "level_text": ("Coq, FULL: executable model of servers_of_happiness (re-indexing, flow network as adjacency lists, BFS with "
+                   "colours/predecessors, augmenting path from the predecessor table, residual network and residual capacities, "
+                   "augmentation loop; fuel servers+1 / vertices+1).  Proved for ALL inputs, unbounded: the model returns a number "
+                   "for every well-formed servermap (the fuel suffices: soh_total), the number is the size of a matching "
+                   "(soh_is_matching), no larger matching exists (soh_is_maximum: flow invariant preserved by every augmentation "
+                   "along the BFS path, BFS closure, Koenig cover from the coloured set), and it is the same for every presentation "
+                   "of the relation (soh_order_independent; also stated on the sharemap argument under Permutation).  "
+                   "shares_by_server is proved to transpose the sharemap and to produce a well-formed servermap."),
+    "level_note": ("The theorems are about Model/Matching.v; its tie to the Python code is the correspondence run of this driver "
+                   "(the real servers_of_happiness, _flow_network_for, residual_network, bfs, augmenting_path_for called on the "
+                   "same inputs and compared with the model: final number on every case, intermediate graphs/flows/predecessor "
+                   "tables/paths on a sample), exhaustive for all 74 963 relations <= 4x4 in the thorough tier.  wf_svm (no repeated "
+                   "dict key / set element) is the type invariant of the Python value.  Python's IndexError on out-of-range "
+                   "vertices is not modelled (the graphs built by _flow_network_for are proved in range: network_is_net).  "
+                   "The certificate validator (soh_certified) is still evaluated on every case as an independent cross-check."),
+    "technique": "Coq proof of the algorithm (invariant + termination, all inputs) over an executable model + differential run of model vs implementation + independent Kuhn oracle",
     "design_ref": "8/C08, A.3",
     "trusted_base": ["harness/props/c08.py reads CPython's dict/set iteration order off shares_by_server() and hands it to the model"],
     "assumptions": ["peer ids enter the model as N through an injective numbering (servers_of_happiness only hashes and compares them for equality)"],
